@@ -52,6 +52,10 @@ func newC11Cast() *c11Cast {
 	ce := world.SimpleCRL(p.CA, 7, 201)
 	// a critical issuingDistributionPoint (indirect CRL, some reasons only): a standard extension this validator does not
 	// implement - such a list must stay out of force like any other it cannot fully interpret
+	// (it stands behind the supported extensions, which are marked critical here as well)
+	for i := range ce.Exts {
+		ce.Exts[i].Critical = true
+	}
 	ce.Exts = append(ce.Exts, world.StdCriticalExt("idp"))
 	c.docs["critext{r}"] = ce.DER()
 	// the accepted lists carry no cRLNumber (it is optional): what supersedes a list is the later accepted download,
@@ -370,28 +374,56 @@ func c11Teletex(chk *fw.Check) (evals int) {
 	caS := world.Issue(p.Root, world.CertOpt{Subject: &pkix.Name{CommonName: "Pr\u0161ha \u0141\u00f3d\u017a CA", Organization: []string{"verif"}}, IsCA: true, KeyKind: "ec", KeyIdx: 6, Serial: big.NewInt(86)})
 	caA := world.Issue(p.Root, world.CertOpt{Subject: &pkix.Name{CommonName: "Praha A\u00f3dz CA", Organization: []string{"verif"}}, IsCA: true, KeyKind: "ec", KeyIdx: 7, Serial: big.NewInt(87)})
 	const urlS = "http://crl.test/lowbyte.crl"
-	for _, disk := range []bool{false, true} {
-		seqWorld(func() {
-			w := NewCW(CWOpt{Disk: disk, SigMode: config.SignatureValidationModeVerify})
-			defer os.RemoveAll(w.Dir)
-			if err := w.Provision(); err != nil {
-				panic(err)
-			}
-			vsched.Drain()
-			w.Net.Serve(urlS, "listS", world.SimpleCRL(caS, 1, 5).DER())
-			listed := world.Issue(caS, world.CertOpt{CN: "c11 lowbyte listed", Serial: big.NewInt(5), KeyKind: "ec", KeyIdx: 5, CDP: []string{urlS}})
-			if v := w.Lookup(listed, world.Chain(listed, caS, p.Root)); v.String() != "REVOKED" {
-				chk.Violation("C11|listed-not-revoked|non-ascii-issuer|"+be(disk), fmt.Sprintf("vacuity guard: the listed certificate of issuer %q is not revoked: %s %s", caS.Cert.Subject.CommonName, v, v.Err), nil)
-				return
-			}
-			other := world.Issue(caA, world.CertOpt{CN: "c11 lowbyte other", Serial: big.NewInt(5), KeyKind: "ec", KeyIdx: 5})
-			v := w.Lookup(other, world.Chain(other, caA, p.Root))
-			evals++
-			if v.Revoked {
-				chk.Violation("C11|revoked-not-listed|other-issuer-same-low-bytes|"+be(disk), fmt.Sprintf("issuer %q serial 5 reported revoked; the only CRL in force is issued by %q (the names differ in characters whose code points share the low byte)", caA.Cert.Subject.CommonName, caS.Cert.Subject.CommonName), nil)
-			}
-			w.Chk.Cleanup()
-		})
+	type pair struct {
+		what          string
+		lister, other *world.Ident
+		listed, probe int64
+	}
+	ca := func(serial int64, idx int, name *pkix.Name, raw []byte) *world.Ident {
+		return world.Issue(p.Root, world.CertOpt{CN: fmt.Sprint("c11 pair ", serial), Subject: name, RawSubject: raw, IsCA: true, KeyKind: "ec", KeyIdx: idx, Serial: big.NewInt(serial)})
+	}
+	pairs := []pair{
+		{"the names differ in characters whose code points share the low byte", caS, caA, 5, 5},
+		// where the name ends and the serial number begins: "... 1" + 23 against "... 12" + 3 (and the other way round),
+		// with the digits in the attribute which is rendered last (the organisation) and in a name of one attribute
+		{"the other issuer's name is this one's plus a digit, its serial number lacks that digit",
+			ca(88, 6, &pkix.Name{CommonName: "Plant CA", Organization: []string{"verif 1"}}, nil), ca(89, 7, &pkix.Name{CommonName: "Plant CA", Organization: []string{"verif 12"}}, nil), 23, 3},
+		{"this issuer's name is the other one's plus a digit, its serial number lacks that digit",
+			ca(89, 7, &pkix.Name{CommonName: "Plant CA", Organization: []string{"verif 12"}}, nil), ca(88, 6, &pkix.Name{CommonName: "Plant CA", Organization: []string{"verif 1"}}, nil), 3, 23},
+		{"single-attribute names: the other issuer's name is this one's plus a digit",
+			ca(90, 6, nil, world.RawDN("CN", "Plant CA 1")), ca(91, 7, nil, world.RawDN("CN", "Plant CA 12")), 23, 3},
+		{"the other issuer's name is this one's plus '_1', serial numbers 23 and 1_23 cannot collide but 1 and the suffix could",
+			ca(92, 6, nil, world.RawDN("CN", "Plant CA")), ca(93, 7, nil, world.RawDN("CN", "Plant CA_2")), 23, 3},
+	}
+	for _, pr := range pairs {
+		pr := pr
+		for _, disk := range []bool{false, true} {
+			seqWorld(func() {
+				w := NewCW(CWOpt{Disk: disk, SigMode: config.SignatureValidationModeVerify})
+				defer os.RemoveAll(w.Dir)
+				if err := w.Provision(); err != nil {
+					panic(err)
+				}
+				vsched.Drain()
+				w.Net.Serve(urlS, "listS", world.SimpleCRL(pr.lister, 1, pr.listed).DER())
+				listed := world.Issue(pr.lister, world.CertOpt{CN: "c11 pair listed", Serial: big.NewInt(pr.listed), KeyKind: "ec", KeyIdx: 5, CDP: []string{urlS}})
+				if v := w.Lookup(listed, world.Chain(listed, pr.lister, p.Root)); v.String() != "REVOKED" {
+					chk.Violation("C11|listed-not-revoked|issuer-pair|"+be(disk), fmt.Sprintf("vacuity guard: the listed certificate of issuer %q is not revoked: %s %s", pr.lister.Cert.Subject.String(), v, v.Err), nil)
+					return
+				}
+				other := world.Issue(pr.other, world.CertOpt{CN: "c11 pair other", Serial: big.NewInt(pr.probe), KeyKind: "ec", KeyIdx: 5})
+				v := w.Lookup(other, world.Chain(other, pr.other, p.Root))
+				evals++
+				if v.Revoked {
+					sig := "other-issuer-same-low-bytes"
+					if pr.listed != pr.probe {
+						sig = "other-issuer-name-and-serial-run-together"
+					}
+					chk.Violation("C11|revoked-not-listed|"+sig+"|"+be(disk), fmt.Sprintf("issuer %q serial %d reported revoked; the only CRL in force is issued by %q and lists serial %d (%s)", pr.other.Cert.Subject.String(), pr.probe, pr.lister.Cert.Subject.String(), pr.listed, pr.what), nil)
+				}
+				w.Chk.Cleanup()
+			})
+		}
 	}
 	caU := world.Issue(p.Root, world.CertOpt{CN: "t61-u", RawSubject: world.RawDNT61("O", "verif", "CN", "M\xfcller CA"), IsCA: true, KeyKind: "ec", KeyIdx: 6, Serial: big.NewInt(78)})
 	caO := world.Issue(p.Root, world.CertOpt{CN: "t61-o", RawSubject: world.RawDNT61("O", "verif", "CN", "M\xf6ller CA"), IsCA: true, KeyKind: "ec", KeyIdx: 7, Serial: big.NewInt(79)})
